@@ -735,12 +735,12 @@ class TextXMetaModel(DebugPrinter):
                 if pre_ref_resolution_callback:
                     pre_ref_resolution_callback(other_model)
 
+            models_before = self._models_in_global_repository()
             model = self._parser_blueprint.clone().get_model_from_str(
                 model_str, debug=debug, pre_ref_resolution_callback=kwargs_callback
             )
 
-            for p in self._model_processors:
-                p(model, self)
+            self._call_model_processors(model, models_before)
         else:
             model = self.internal_model_from_file(
                 file_name,
@@ -780,6 +780,12 @@ class TextXMetaModel(DebugPrinter):
         file_name = abspath(file_name)
         model = None
         callback = pre_ref_resolution_callback
+        # Only the outermost load cleans up after a failing model processor;
+        # a failure while loading an imported model is handled by the
+        # importing model (see `parse_tree_to_objgraph`).
+        models_before = (
+            self._models_in_global_repository() if is_main_model else None
+        )
 
         if hasattr(self, "_tx_model_repository"):
             # metamodel has a global repo
@@ -821,10 +827,40 @@ class TextXMetaModel(DebugPrinter):
                 is_main_model=is_main_model,
             )
 
-        for p in self._model_processors:
-            p(model, self)
+        self._call_model_processors(model, models_before)
 
         return model
+
+    def _models_in_global_repository(self):
+        """
+        Returns the models currently held by the global repository of this
+        meta-model, or None if the meta-model has no global repository.
+        """
+        if hasattr(self, "_tx_model_repository"):
+            return list(self._tx_model_repository.all_models)
+        return None
+
+    def _call_model_processors(self, model, models_before=None):
+        """
+        Calls all registered model processors for the given model. If a
+        processor fails, the models which were added to the global repository
+        since `models_before` was taken (see `_models_in_global_repository`)
+        are removed from it, as for any other error during model loading.
+        """
+        try:
+            for p in self._model_processors:
+                p(model, self)
+        except:  # noqa
+            if models_before is not None:
+                repository = self._tx_model_repository
+                repository.remove_models(
+                    [
+                        m
+                        for m in repository.all_models
+                        if not any(m is known for known in models_before)
+                    ]
+                )
+            raise
 
     def register_model_processor(self, model_processor):
         """
